@@ -17,6 +17,8 @@ def gen_sources(rng, nmax=4, names=('TICK_A', 'TICK_B', 'TICK_C'), times_max=6, 
     out.append({'i': i, 'sig': rng.choice(names), 'kind': rng.choice(['fifo', 'lifo']), 'period': rng.choice(PERIODS),
                 'times': rng.randint(0 if allow_infinite else 1, times_max), 'deferred': rng.choice([True, False, None]),
                 'start_delay': rng.choice([0.0, 0.0, 0.003, 0.2])})
+    if rng.random() < 0.25:
+      out[-1]['call_style'] = 'positional'      # period, times (and deferred) passed by position, in the documented order
     if out[-1]['times'] == 0 and rng.random() < 0.6:
       # the documented heart-beat form: the repeat count is left out (or passed as None) - it defaults to 0 = until cancelled
       out[-1]['omit_times'] = rng.choice(['omitted', 'None'])
@@ -92,8 +94,12 @@ def start_source(ao, run, src):
   if src['deferred'] is not None:
     kw['deferred'] = src['deferred']
   run.t0[src['i']] = ds.S.clock
+  args = ()
+  if src.get('call_style') == 'positional' and 'times' in kw and kw['times'] is not None:
+    # the documented parameter order, passed by position: post_fifo(e, period, times[, deferred])
+    args = (kw.pop('period'), kw.pop('times')) + ((kw.pop('deferred'),) if 'deferred' in kw else ())
   try:
-    run.ids[src['i']] = post(ev, **kw)
+    run.ids[src['i']] = post(ev, *args, **kw)
   except Exception as ex:
     run.raised[src['i']] = ex
     return False
